@@ -49,6 +49,12 @@ class UseWalrusIf(SimpleCodemod, NameResolutionMixin):
         self.assigns = {}
 
     def _build_named_expr(self, target, value, parens=True):
+        # `x = 1, 2` and `x = yield` are fine as statements, but the value of
+        # a walrus must be parenthesized: `x := (1, 2)`, `x := (yield)`
+        if isinstance(value, (cst.Tuple, cst.Yield)) and not value.lpar:
+            value = value.with_changes(
+                lpar=[cst.LeftParen()], rpar=[cst.RightParen()]
+            )
         return cst.NamedExpr(
             target=target,
             value=value,
